@@ -362,46 +362,68 @@ func semMaxJobsCase(c *Ctx) []Violation {
 		}
 		step()
 		for op := 0; op < nops && len(out) == 0; op++ {
-			m := cl[plan.Draw(nclients)]
+			nb := 1
+			if plan.Draw(3) == 0 {
+				nb = 2 + plan.Draw(2)
+			}
+			used := map[*mj]bool{}
+			usedMisc := false
 			ctx := ""
-			switch k := plan.Draw(9); {
-			case k < 3 && m.state == "idle":
-				core.VerifSetMetadataState(m.md, "queued")
-				m.state = "waiting"
-				ctx = "acquire " + fmt.Sprint(m.md.VerifLabel())
-				for i := range cl {
-					if cl[i] == m {
-						cmd[i] <- "acquire"
-					}
+			for b := 0; b < nb; b++ {
+				m := cl[plan.Draw(nclients)]
+				k := plan.Draw(9)
+				if used[m] {
+					continue
 				}
-			case k < 5 && m.state == "holding":
-				// the job ends: state changes and the run loop releases the slot
-				core.VerifSetMetadataState(m.md, "complete")
-				m.state = "releasing"
-				ctx = "release"
-				for i := range cl {
-					if cl[i] == m {
-						cmd[i] <- "release"
+				switch {
+				case k < 3 && m.state == "idle":
+					core.VerifSetMetadataState(m.md, "queued")
+					m.state = "waiting"
+					used[m] = true
+					ctx += "acquire " + fmt.Sprint(m.md.VerifLabel()) + "; "
+					for i := range cl {
+						if cl[i] == m {
+							cmd[i] <- "acquire"
+						}
 					}
+				case k < 5 && m.state == "holding":
+					// the job ends: state changes and the run loop releases the slot
+					core.VerifSetMetadataState(m.md, "complete")
+					m.state = "releasing"
+					used[m] = true
+					ctx += "release; "
+					for i := range cl {
+						if cl[i] == m {
+							cmd[i] <- "release"
+						}
+					}
+				case k == 5 && m.state == "holding" && !usedMisc:
+					// the job finished but nobody called endJob: FindDone must notice
+					core.VerifSetMetadataState(m.md, "complete")
+					m.state = "idle"
+					used[m] = true
+					usedMisc = true
+					ctx += "job done, FindDone; "
+					misc <- func() { sem.FindDone() }
+				case k == 6 && !usedMisc:
+					usedMisc = true
+					ctx += "FindDone; "
+					misc <- func() { sem.FindDone() }
+				case k == 7 && m.state == "waiting":
+					// the job is cancelled (its metadata fails) while it waits for a
+					// slot: when it is woken it must give up and pass the wake-up on
+					core.VerifSetMetadataState(m.md, "failed")
+					m.state = "cancelled"
+					used[m] = true
+					ctx += "cancel waiting " + fmt.Sprint(m.md.VerifLabel()) + "; "
+					c.Res.Probes["maxjobs-waiter-cancelled"]++
 				}
-			case k == 5 && m.state == "holding":
-				// the job finished but nobody called endJob: FindDone must notice
-				core.VerifSetMetadataState(m.md, "complete")
-				m.state = "idle"
-				ctx = "job done, FindDone"
-				misc <- func() { sem.FindDone() }
-			case k == 6:
-				ctx = "FindDone"
-				misc <- func() { sem.FindDone() }
-			case k == 7 && m.state == "waiting":
-				// the job is cancelled (its metadata fails) while it waits for a
-				// slot: when it is woken it must give up and pass the wake-up on
-				core.VerifSetMetadataState(m.md, "failed")
-				m.state = "cancelled"
-				ctx = "cancel waiting " + fmt.Sprint(m.md.VerifLabel())
-				c.Res.Probes["maxjobs-waiter-cancelled"]++
-			default:
+			}
+			if ctx == "" {
 				continue
+			}
+			if len(used) > 1 {
+				c.Res.Probes["maxjobs-concurrent-batches"]++
 			}
 			step()
 			check(ctx)
